@@ -10,6 +10,7 @@ import (
 	"sort"
 	"strconv"
 	"strings"
+	"sync"
 	"unicode/utf8"
 
 	"github.com/ohler55/ojg"
@@ -531,7 +532,52 @@ func treeJob(items []treeItem) job {
 	}
 }
 
+// floatTexts: the strconv texts of the finite float leaves of the tree
+func floatTexts(v any, acc map[string]bool) {
+	switch t := v.(type) {
+	case float64:
+		if !math.IsNaN(t) && !math.IsInf(t, 0) {
+			acc[fmtFloat(t)] = true
+		}
+	case []any:
+		for _, x := range t {
+			floatTexts(x, acc)
+		}
+	case map[string]any:
+		for _, x := range t {
+			floatTexts(x, acc)
+		}
+	}
+}
+
+var floatSeen sync.Map
+
+// checkFloatGrammar: every text strconv writes for a finite float (format 'g', shortest) has to be a literal of the
+// grammar the number theorems are about (Sen.NumAdm: hypothesis of value_flt / C10_tree_partial for float leaves)
+func checkFloatGrammar(d *lib.Driver, v any) error {
+	acc := map[string]bool{}
+	floatTexts(v, acc)
+	for t := range acc {
+		if _, seen := floatSeen.LoadOrStore(t, true); seen {
+			continue
+		}
+		ans, err := d.Ask1("numadm\t" + lib.HexF([]byte(t)))
+		if err != nil {
+			return err
+		}
+		rep.Count("tie.float_grammar", 1)
+		if ans != "1" {
+			add("disagreement", "model:float-grammar", "strconv wrote a float text outside the grammar of the number theorems (Sen.NumAdm)", []byte(t),
+				map[string]any{"text": t, "answer": ans})
+		}
+	}
+	return nil
+}
+
 func judgeTree(d *lib.Driver, v any, o wopts) error {
+	if err := checkFloatGrammar(d, v); err != nil {
+		return err
+	}
 	var sb strings.Builder
 	canonIn(&sb, v)
 	rep.AddEval(1, distinctCase([]byte("tree"), []byte(sb.String()), []byte(o.String())))
@@ -588,9 +634,44 @@ func judgeTree(d *lib.Driver, v any, o wopts) error {
 			}
 			reqs = append(reqs, "indent\t"+fl+"\t"+tb+"\t"+strconv.Itoa(ind)+"\t"+sb.String())
 		}
+		// pretty.SEN / pretty.WriteSEN: no model of the layout rules; the text has to be a white-space layout of the tree
+		// (Sen.isLayout, hypothesis of C10_anylayout_partial)
+		// … and for every sen.Writer text: where the member order is not determined (no Sort, several members) the order is
+		// read off the text by the driver, like for pretty with Align.
+		layout := good && oc.Panic == ""
+		if layout {
+			fl := ""
+			if o.omitNil {
+				fl += "n"
+			}
+			if o.omitEmpty {
+				fl += "e"
+			}
+			if o.html {
+				fl += "h"
+			}
+			if fl == "" {
+				fl = "-"
+			}
+			reqs = append(reqs, "laycheck\t"+fl+"\t"+sb.String()+"\t"+lib.HexF(out))
+		}
 		ans, err := d.Ask(reqs)
 		if err != nil {
 			return err
+		}
+		if layout {
+			la := ans[len(ans)-1]
+			if la == "bad-op" {
+				return fmt.Errorf("driver answered bad-op to %v", reqs[len(reqs)-1])
+			}
+			rep.Count("tie.layout_relation."+strings.SplitN(o.writer, ".", 2)[0], 1)
+			if la == "1r" {
+				// a layout of the tree with the members of some object in another order than the sorted one
+				rep.Count("tie.layout_relation.reordered", 1)
+			}
+			if la != "1" && la != "1r" {
+				add("disagreement", "model:layout-relation", "the written text round-trips but is not a white-space layout of the tree (Sen.isLayout)", in, extra)
+			}
 		}
 		if ans[0] == "bad-op" || ((tight || indented) && ans[1] == "bad-op") {
 			return fmt.Errorf("driver answered bad-op to %v", reqs)
